@@ -101,6 +101,39 @@ def nontrivial(aug, impl):
     return any(o[0] in ("M", "L") and (o[2] == y or o[1] == x) for o in ops)
 
 
+def on_some_segment(q):
+    from fractions import Fraction as Fr
+    t = q.split()
+    x, y = Fr(bits_f32(int(t[3]))), Fr(bits_f32(int(t[4])))
+    w, ops, _ = _path.parse_path(t, 5)
+    if any(o[0] not in "MLZ" for o in ops):
+        return True       # curved: cannot decide exactly, do not judge
+    segs, cur, first = [], None, None
+    for o in ops:
+        if o[0] == "M":
+            if cur is not None and first is not None:
+                segs.append((cur, first))
+            cur = first = (Fr(o[1]), Fr(o[2]))
+        elif o[0] == "L":
+            p = (Fr(o[1]), Fr(o[2]))
+            if cur is None:
+                first = p
+            else:
+                segs.append((cur, p))
+            cur = p
+        else:
+            if cur is not None and first is not None:
+                segs.append((cur, first))
+            cur = first
+    if cur is not None and first is not None:
+        segs.append((cur, first))
+    for a, b in segs:
+        cr = (b[0] - a[0]) * (y - a[1]) - (b[1] - a[1]) * (x - a[0])
+        if cr == 0 and min(a[0], b[0]) <= x <= max(a[0], b[0]) and min(a[1], b[1]) <= y <= max(a[1], b[1]):
+            return True
+    return False
+
+
 def fill_agreement(ctx):
     """contains_point vs what fill paints, on the implementation"""
     rng = ctx.rng
@@ -135,6 +168,8 @@ def fill_agreement(ctx):
     out, died = build.run_sharded(build.RQV, queries)
     for q, o, e in zip(queries, out, expect):
         if o.split()[1] == "ok" and o.split()[2] != e:
+            if e == "false" and on_some_segment(q):
+                continue      # a zero-area part of the path passes exactly through the pixel centre: 'on a segment' wins
             ctx.violation("fill-%s" % q.split()[1], q, "contains_point says %s for the centre of a pixel whose whole 3x3 neighbourhood fill %s"
                           % (o.split()[2], "painted fully" if e == "true" else "left untouched"))
             return
